@@ -11,6 +11,7 @@
 
 #include "recipes.hpp"
 
+#include "celma/prog_args/eval_argument_string.hpp"
 #include "celma/prog_args/groups.hpp"
 
 namespace recipes {
@@ -27,6 +28,9 @@ struct EvalCfg
    /// group mode: two handlers obtained from the Groups singleton (this recipe
    /// and recipe2), evaluated through Groups::evalArguments()
    const Json*                 recipe2 = nullptr;
+   /// the words behind argv[ 0] come as one string through evalArgumentString()
+   bool                        use_arg_string = false;
+   std::string                 arg_string;
 };
 
 struct EvalOut
@@ -139,7 +143,12 @@ inline EvalOut evaluate( const EvalCfg& cfg)
       if (cfg.recipe != nullptr) build( h, sub.get(), d, *cfg.recipe, b);
       setup_done = true;
       for (int r = 0; r < cfg.repeat; ++r)
-         h.evalArguments( args.argc(), args.argv());
+      {
+         if (cfg.use_arg_string)
+            celma::prog_args::evalArgumentString( h, cfg.arg_string, cfg.argv.empty() ? "prog" : cfg.argv[ 0].c_str());
+         else
+            h.evalArguments( args.argc(), args.argv());
+      }
    } catch (const std::exception& e)
    {
       out.threw = true;
